@@ -166,10 +166,16 @@ def run_five(job, J):
         ci, cj = D[i], D[j]
         for rest in combinations(D[j + 1:], 3):
             cards = (ci, cj) + rest
+            first = None
             for fn, ts in keyfns.items():
                 k = fn(cards)
                 for t in ts:
                     J.one(t, cards, k)
+                    if first is None:
+                        first = (t, k)
+            # the verdict is a function of the cards: the type asked first is asked again after all the others saw them
+            J.one(first[0], cards, first[1])
+            J.c['asked_again_after_the_other_types'] += 1
             if sample is None:
                 sample = {'type': 'StandardHighHand', 'cards': ''.join(cards), 'reference_class': repr(H.key('StandardHighHand', cards))}
     return sample
@@ -190,6 +196,10 @@ def run_badugi(job, J):
                 J.one(t, cards, None, 'wrong-size')
             if n > 1:
                 J.one('KuhnPokerHand', cards, None, 'wrong-size')
+            # the verdict is a function of the cards: the badugi types are asked again after all the others saw them
+            for t in BADUGI:
+                J.one(t, cards, H.key(t, cards))
+                J.c['asked_again_after_the_other_types'] += 1
             sample = sample or {'type': 'BadugiHand', 'cards': ''.join(cards)}
     return sample
 
